@@ -1,10 +1,11 @@
 #!/bin/sh
 # Re-runs every seeded change under seeded/ against its property's quick check
 # (scratch copy of /repo/src; /repo itself is never touched). One line per change.
+# FAST=1 stops each batch soon after its first violation (the registered checks never do that).
 cd "$(dirname "$0")/.."
 for d in seeded/S*/; do
   id=$(basename "$d"); prop=$(/venv/bin/python -c "import json;print(json.load(open('$d/meta.json'))['breaks_property'])")
-  out=$(tools/try_patch.sh "$d/patch.diff" "$prop" "$@" 2>/dev/null)
+  out=$(VERIF_STOP_AFTER_FIRST=$FAST tools/try_patch.sh "$d/patch.diff" "$prop" "$@" 2>/dev/null)
   n=$(printf '%s\n' "$out" | grep -c "VIOLATION")
   h=$(printf '%s\n' "$out" | grep -c "HARNESS-ERROR")
   if [ "$n" -gt 0 ]; then echo "caught  $id ($prop): $n distinct violation signature(s)$( [ "$h" -gt 0 ] && echo ", $h harness error line(s)")";
